@@ -18,7 +18,7 @@
 (* source tie by translation: the lemmas of these files are obligations of this property *)
 From Soy Require Import Proofs.SourceTieLexer Proofs.SourceTieExpr Proofs.SourceTieParser Proofs.SourceTieText Proofs.SourceTieQuote.
 From Soy Require Import Model.Bytes Model.Outcome Model.Ast Model.Token Model.ExprParser Model.Parser Generated.Tables Model.Lexer Model.ParseBytes Spec.LexSpec
-  Proofs.LexerPrim Proofs.LexerProofs Proofs.ParserMeasure Proofs.ParserProofs Proofs.LexParseBridge.
+  Proofs.LexerPrim Proofs.LexerProofs Proofs.LexShift Proofs.ParserMeasure Proofs.ParserProofs Proofs.LexParseBridge.
 Open Scope Z_scope.
 
 Theorem lex_total_linear : forall (uni_letter uni_digit : Z -> bool),
@@ -97,6 +97,14 @@ Theorem nested_scanner_wf : forall (uni_letter uni_digit : Z -> bool),
   uni_letter (-1) = false -> uni_digit (-1) = false -> lexq_wf (lexq_model uni_letter uni_digit).
 Proof. exact LexParseBridge.lexq_model_wf. Qed.
 Print Assumptions nested_scanner_wf.
+
+(* lexExprAt at any base >= 0 sends the items of lexExpr, each position shifted by the base (a simulation of
+   the whole scanner model between the two runs, Proofs/LexShift.v) *)
+Theorem lex_expr_at_is_lex_expr_shifted : forall (uni_letter uni_digit : Z -> bool) (base : Z) (fuel : nat) (s : bstr) (ts : list tok),
+  0 <= base -> lex_items uni_letter uni_digit fuel true s = Ok ts ->
+  lex_items_at uni_letter uni_digit base fuel s = Ok (shift_items base ts).
+Proof. exact LexShift.lex_items_at_shift. Qed.
+Print Assumptions lex_expr_at_is_lex_expr_shifted.
 
 Theorem soy_file_total_composed : forall (uni_letter uni_digit : Z -> bool),
   uni_letter (-1) = false -> uni_digit (-1) = false ->
